@@ -104,9 +104,10 @@ def compiled_in(p):
 
 def scan(bdir):
     src = os.path.join(C.VERIF, "extract", "apiscan.py")
+    newest = max(os.path.getmtime(src), os.path.getmtime(os.path.join(C.VERIF, "extract", "lockbal.py")))
     out = os.path.join(bdir, "x_apiscan.json")
     with C.Lock("extract-apiscan"):
-        if os.path.exists(out) and os.path.getmtime(out) >= os.path.getmtime(src):
+        if os.path.exists(out) and os.path.getmtime(out) >= newest:
             return json.load(open(out))
         r = C.sh([sys.executable, src, bdir, C.REPO], stderr=None)
         if r.returncode != 0:
@@ -158,6 +159,14 @@ def render(cfgs, sc):
         lstr(c["file"]), lstr(c["func"]), lstr(c["callee"]), c["k"], lb(c["listed"]), lb(c["wrapped"])) for c in sc["callbacks"]))
     L.append("]")
     L.append("")
+    L.append("/-- every function (of %d scanned) that releases / takes the global lock itself -/" % sc["functions_scanned"])
+    L.append("def lockWindows : List LockFn := [")
+    L.append(",\n".join('  { file := %s, name := %s, api := %s, entryHeld := %s, unlocks := %d, locks := %d, cbRelease := %d, windows := %d,\n'
+                        '    exitsBalanced := %s, loopsBalanced := %s, failLeaves := %s, ordered := %s, quiet := %s }' % (
+        lstr(f["file"]), lstr(f["name"]), lb(f["api"]), lb(f["entryHeld"]), f["unlocks"], f["locks"], f["cbRelease"], f["windows"],
+        lb(f["exitsBalanced"]), lb(f["loopsBalanced"]), lb(f["failLeaves"]), lb(f["ordered"]), lb(f["quiet"])) for f in sc["lockfns"]))
+    L.append("]")
+    L.append("")
     L.append("end Coap.Generated")
     return "\n".join(L) + "\n"
 
@@ -180,8 +189,14 @@ def extract(ctx):
         if p["advertised"] and not compiled_in(p):
             ctx.note("configuration %s: coap_threadsafe_is_supported()=1 but locking is not compiled in "
                      "(COAP_THREAD_SAFE defined as '%s', #if taken: %d)" % (n, p["define"], p["if"]))
+    for f in sc["lockfns"]:
+        for pr in f["problems"]:
+            ctx.note("lock balance: %s %s(): %s" % (f["file"], f["name"], pr))
     return ["Generated.buildCfgs (%d configurations)" % len(cfgs), "Generated.apiSites (%d COAP_API wrappers)" % len(sc["api"]),
-            "Generated.callbackSites (%d invocation sites, %d of listed types)" % (len(sc["callbacks"]), sum(c["listed"] for c in sc["callbacks"]))]
+            "Generated.callbackSites (%d invocation sites, %d of listed types)" % (len(sc["callbacks"]), sum(c["listed"] for c in sc["callbacks"])),
+            "Generated.lockWindows (%d functions with lock events of %d scanned: %d COAP_API, %d internal; %d release windows / callback-release sites in functions entered held)"
+            % (len(sc["lockfns"]), sc["functions_scanned"], sum(f["api"] for f in sc["lockfns"]), sum(not f["api"] for f in sc["lockfns"]),
+               sum(f["windows"] for f in sc["lockfns"] if f["entryHeld"]))]
 
 
 # ----------------------------------------------------------------------------------------------- harness
@@ -212,6 +227,8 @@ def harness(ctx):
     sites = os.path.join(b["cmake"][0], "x_sites.txt")
     txt = "".join("api %s %s %d %d %d\n" % (a["file"], a["name"], a["locks"], a["callsLkd"], a["unlocks"]) for a in sc["api"])
     txt += "".join("cb %s %s %s %d %d\n" % (c["file"], c["func"], c["callee"], c["k"], c["wrapped"]) for c in sc["callbacks"])
+    txt += "".join("win %s %s %d %d %d %d %d %d %d\n" % (f["file"], f["name"], f["entryHeld"], f["windows"], f["exitsBalanced"], f["loopsBalanced"],
+                                                          f["failLeaves"], f["ordered"], f["quiet"]) for f in sc["lockfns"])
     C.write_if_changed(sites, txt)
     cmd = [h0, h1, sites]
     for n, (bd, defs) in b.items():
@@ -223,7 +240,7 @@ def harness(ctx):
 
 
 # ----------------------------------------------------------------------------------------------- generators
-KINDS = ["K", "R", "X", "Y"]
+KINDS = ["K", "R", "X", "Y", "W"]      # W = release window of an internal function (coap_lock_unlock … coap_lock_lock)
 
 
 def gen_app(rng, depth, budget, deep):
@@ -265,6 +282,8 @@ def generate(ctx, escalate=False):
     out = ["lkcfg"]
     out += ["lkapi %s %s" % (a["file"], a["name"]) for a in sc["api"]]
     out += ["lkcb %s %s %s %d" % (c["file"], c["func"], c["callee"], c["k"]) for c in sc["callbacks"]]
+    out += ["lkwin %s %s" % (f["file"], f["name"]) for f in sc["lockfns"]]
+    out.append("lkctxfail 0")
     nseq = 300000 if ctx.thorough() else 20000
     nsch = 60000 if ctx.thorough() else 5000
     if escalate:
@@ -313,6 +332,19 @@ def judge(ctx, c):
         if i != "wrapped=1":
             return ("spec", "application callback invoked without a coap_lock_callback* macro (re-entering the API from it self-deadlocks): " + i)
         return None if i == m else ("tie", "scan fact differs from Generated.callbackSites: %s vs %s" % (i, m))
+    if op == "lkwin":
+        f = dict(kv.split("=", 1) for kv in i.split() if "=" in kv)
+        badk = [k for k in ("exits", "loops", "fail", "order", "quiet") if f.get(k) != "1"]
+        if badk:
+            w = c["input"].split()
+            return ("spec", "lock balance of %s() in %s is broken on some path (%s): %s" % (
+                w[2] if len(w) > 2 else "?", w[1] if len(w) > 1 else "?", ",".join(badk), "; ".join(window_problems(w[1:3])) or i))
+        return None if i == m else ("tie", "scan fact differs from Generated.lockWindows: %s vs %s" % (i, m))
+    if op == "lkctxfail":
+        if i != "ret=null held=0":
+            return ("spec", "coap_new_context() was made to fail (listen address cannot be bound): it must return NULL with the "
+                            "global lock released, observed: " + i)
+        return None if i == m else ("tie", "differs from M: %s vs %s" % (i, m))
     if op == "lksmoke":
         return None if i == "ok" else ("spec", "TSan multi-thread smoke run (2..8 application threads + I/O thread, callbacks re-entering the API): " + i[:300])
     if op == "lkseq":
@@ -353,6 +385,18 @@ def judge(ctx, c):
     return ("tie", "unknown op")
 
 
+def window_problems(key):
+    """the scan's path descriptions for function (file, name)"""
+    try:
+        sc = t1()[2]
+    except Exception:
+        return []
+    for f in sc["lockfns"]:
+        if [f["file"], f["name"]] == list(key):
+            return f["problems"]
+    return []
+
+
 def known(ctx, c):
     w = c["input"].split()
     if w[0] == "lksmoke" and (c["impl"] or "").startswith("tsan:"):
@@ -367,7 +411,7 @@ def known(ctx, c):
 
 def nontrivial(c):
     w = c["input"].split()
-    if w[0] in ("lkcfg", "lkapi", "lkcb"):
+    if w[0] in ("lkcfg", "lkapi", "lkcb", "lkwin", "lkctxfail"):
         return True
     if w[0] in ("lkseq", "lksched"):
         return "L" in c["input"] and "+" in c["input"]
